@@ -61,6 +61,8 @@ def run(tier, seed):
     quick = tier == "quick"
     plan = [("tut13x2", 40), ("guix2", 30), ("tut1x2e", 20), ("tut3fedx2", 16)] if quick else \
            [("tut13x2", 300), ("tut3fedx2", 200), ("tut13x3", 300), ("guix2", 300), ("tut1x2e", 200), ("guix3e", 200), ("minx2", 200), ("getx2", 200), ("tut13x4", 150)]
+    camp.replay_model("tut1x2e", 6 if tier == "quick" else 40, seed=seed + 1)
+    camp.replay_model("tut13x2e", 4 if tier == "quick" else 40, seed=seed + 2)
     for name, n in plan:
         inst = D.make_instance(name).prepare()
         jobs = jobs_for(inst, rng, n)
